@@ -12,7 +12,7 @@ ANCHORS = ['txtorcon/onion.py', 'txtorcon/controller.py']
 RULE = ('the full product version {2,3} x key {none, discard, bare blob, blob with matching type prefix, blob with foreign prefix, blob with CR/LF} '
         'x detach x single-hop x auth {none, basic with 0, 1, 2 clients with/without tokens} x port mappings (int, pair, pair with unix socket, '
         'pair with ip:port, string forms; 1..3 of them) through EphemeralOnionService.create / EphemeralAuthenticatedOnionService.create against the '
-        'fake Tor; the service object is inspected when the reply has arrived, then remove() is called. '
+        'fake Tor; the service object is inspected when the reply has arrived, then remove() is called (for some cases twice, Tor refusing the first DEL_ONION). '
         'non-trivial = every cell (each exercises a different command); distinct = distinct cells')
 TRUSTED = ["the ADD_ONION argument grammar as transcribed in lean/TxV/Spec/AddOnion.lean", "the fake Tor's reply lines (ServiceID=, PrivateKey=, ClientAuth=)",
            "_validate_ports' formatting of the port forms is re-stated by the harness (expected normalisation); available_tcp_port on MemoryReactor yields port 0"]
@@ -53,6 +53,9 @@ def gen_cases(rng, tier):
         if tier == 'quick' and ps not in ('pair', 'three', 'int') and (det or sh):
             continue
         yield {'version': ver, 'key': key, 'detach': det, 'single_hop': sh, 'auth': auth, 'ports': ps}
+    # removal asked twice because Tor refused the first DEL_ONION
+    for ver, auth in itertools.product([2, 3], sorted(AUTHS)):
+        yield {'version': ver, 'key': sorted(KEYS)[0], 'detach': False, 'single_hop': False, 'auth': auth, 'ports': 'pair', 'del_refused': True}
 
 
 def run_impl(c):
@@ -91,7 +94,15 @@ def run_impl(c):
             out['clients'] = []
         out['sid'] = st.service_ids[-1] if st.service_ids else None
         try:
-            rd = onion.remove()
+            if c.get('del_refused'):
+                # Tor refuses the first removal; the application asks again
+                st.scripted['DEL_ONION'] = ['552 Unknown Onion Service id\r\n']
+                res = []
+                onion.remove().addCallbacks(lambda r: res.append('ok'), lambda f: res.append('fail') and None)
+                onion.remove().addCallbacks(lambda r: res.append('ok'), lambda f: res.append('fail') and None)
+                out['del_results'] = res
+            else:
+                rd = onion.remove()
             out['del_onion'] = st.commands('DEL_ONION')
         except Exception as e:
             out['del_onion'] = ['raised:' + type(e).__name__]
@@ -189,6 +200,12 @@ def run_cases(cases, drv, tier):
                 impl_m['private_key'] = im.get('private_key')
                 impl_m['clients'] = sorted(im.get('clients', []))
                 impl_m['del'] = (im.get('del_onion') or [None])[0]
+                if c.get('del_refused'):
+                    # every removal request is a DEL_ONION for that address: refused, then accepted
+                    model['del_all'] = [model['del'], model['del']]
+                    model['del_results'] = ['fail', 'ok']
+                    impl_m['del_all'] = im.get('del_onion')
+                    impl_m['del_results'] = im.get('del_results')
             corr_ok = impl_m == model
             # the property
             if exp == 'refused':
@@ -205,8 +222,11 @@ def run_cases(cases, drv, tier):
                 impl_view = {'sent': len(im['add_onion']), 'parsed': parse_fields(parsed) if parsed not in ('none', 'bad-op') else parsed,
                              'hostname': im.get('hostname'), 'private_key': im.get('private_key'),
                              'clients': sorted(im.get('clients', [])), 'del': (im.get('del_onion') or [None])[0]}
+                if c.get('del_refused'):
+                    spec['del_all'] = [spec['del'], spec['del']]
+                    impl_view['del_all'] = im.get('del_onion')
             prop_ok = impl_view == spec
-        tags = ['v%d' % c['version'], 'key=' + c['key'], 'auth=' + c['auth'], 'ports=' + c['ports'],
+        tags = ['v%d' % c['version'], 'key=' + c['key'], 'auth=' + c['auth'], 'ports=' + c['ports'], 'del-refused-once' if c.get('del_refused') else 'del-once',
                 'refuse-expected' if exp == 'refused' else 'accept']
         res.append(Result(c, {'raw': im, 'view': impl_view}, model, spec, corr_ok=corr_ok, prop_ok=prop_ok, in_h=True, nontrivial=True, tags=tags))
     return res
